@@ -4,6 +4,7 @@
   seedtool.py confirm <worktree> <seeddir>   confirm a sub-agent's change in its scratch worktree: patch applies, the
                                             library builds, the 927 tests pass, the demo fails with it and passes without
   seedtool.py detect <seeddir> <PROP> [tier] apply the patch to /repo, run ./check PROP tier, undo the patch; print verdict
+  seedtool.py detect-scratch <seeddir> <PROP> [tier]   the same without touching /repo or /verif/evidence (scratch worktree + harness copy)
 """
 import json, os, shutil, subprocess, sys, time
 
@@ -32,6 +33,35 @@ def confirm(wt, sd):
     print(json.dumps(res, indent=1))
     return res
 
+def detect_scratch(sd, prop, tier="quick", base="/tmp/mutlab"):
+    """Like detect, but leaves /repo and /verif's evidence alone: a scratch worktree of /repo carries the patch, a scratch copy of the
+    harness points its path dependencies at it, and evidence / replays go to a scratch directory.  Can run while other checks use /repo."""
+    wt, hz, out = base + "/repo", base + "/harness", base + "/out"
+    os.makedirs(base, exist_ok=True)
+    if not os.path.isdir(wt):
+        rc, o = sh("git -C /repo worktree add -q --detach %s HEAD" % wt)
+        if rc != 0:
+            print("cannot create worktree:", o); return None
+    sh("git checkout -q --detach $(git -C /repo rev-parse HEAD) && git checkout -q -- . && git clean -fdq -e target", cwd=wt)
+    rc, o = sh("git apply %s/patch.diff" % sd, cwd=wt)
+    if rc != 0:
+        print("patch does not apply:", o); return None
+    if not os.path.isdir(hz):
+        sh("mkdir -p %s && rsync -a --exclude 'target*' /verif/harness/ %s/" % (hz, hz))
+    else:
+        sh("rsync -a --exclude 'target*' /verif/harness/ %s/" % hz)
+    sh("grep -rl '/repo/' --include=Cargo.toml --include=Cargo.lock . | xargs sed -i 's#/repo/#%s/#g'" % wt, cwd=hz)
+    t0 = time.time()
+    try:
+        rc, out_txt = sh("VERIF_SCRATCH_HARNESS=%s VERIF_SCRATCH_OUT=%s ./check %s %s" % (hz, out, prop, tier), cwd="/verif", timeout=7200)
+    finally:
+        sh("git checkout -q -- .", cwd=wt)
+    viol = [l for l in out_txt.splitlines() if l.startswith("VIOLATION")]
+    res = {"property": prop, "tier": tier, "exit": rc, "violations": len(viol), "first": viol[:3], "wall_s": round(time.time() - t0),
+           "tail": out_txt.splitlines()[-3:], "mode": "scratch worktree + scratch harness"}
+    print(json.dumps(res, indent=1))
+    return res
+
 def detect(sd, prop, tier="quick"):
     rc, out = sh("git -C /repo status --porcelain --untracked-files=no")
     if out.strip():
@@ -53,5 +83,7 @@ def detect(sd, prop, tier="quick"):
 if __name__ == "__main__":
     if sys.argv[1] == "confirm":
         confirm(sys.argv[2], sys.argv[3])
+    elif sys.argv[1] == "detect-scratch":
+        detect_scratch(sys.argv[2], sys.argv[3], sys.argv[4] if len(sys.argv) > 4 else "quick")
     else:
         detect(sys.argv[2], sys.argv[3], sys.argv[4] if len(sys.argv) > 4 else "quick")
